@@ -15,6 +15,7 @@ import (
 	"time"
 
 	"github.com/pion/transport/v3/deadline"
+	"verifharness/internal/gstate"
 	"verifharness/internal/res"
 )
 
@@ -377,12 +378,20 @@ func realMode(tier string, seed int64, shard, nshard int, r *res.Result) {
 					r.Count("real_closures_within_50us_of_due", 1)
 				}
 			} else if spin == 60000 {
-				// bounded liveness: 60ms after a <=300us deadline; confirm with a canary timer that runtime timers run
-				c := make(chan struct{})
-				time.AfterFunc(0, func() { close(c) })
-				<-c
+				// bounded liveness. On a loaded machine the runtime may run the timer, or schedule its callback goroutine,
+				// late: wait (yielding) until Done closes; only 10 s after the deadline, with a canary timer fired and no
+				// goroutine inside the timeout callback, is an open Done a lost expiry.
+				for t1 := time.Now(); !isClosed(ch) && time.Since(t1) < 10*time.Second; {
+					time.Sleep(time.Millisecond)
+				}
 				if !isClosed(ch) {
-					report("deadline:expiry-lost", "near deadline passed 60ms ago, a canary timer has fired, Done still open", hist)
+					c := make(chan struct{})
+					time.AfterFunc(0, func() { close(c) })
+					<-c
+					inFlight := len(gstate.With(gstate.Snapshot(), "deadline.(*Deadline).timeout")) > 0
+					if !isClosed(ch) && !inFlight {
+						report("deadline:expiry-lost", "near deadline passed more than 10s ago, a canary timer has fired, no timeout callback is in flight, Done still open", hist)
+					}
 				}
 			}
 		}
